@@ -181,7 +181,7 @@ def replay(records, driver, stats=None):
 
 
 CLAUSES = ["placement", "loc", "mach_hold", "agv_hold", "claims", "capacity", "flags", "feasible", "no_overdue",
-           "past", "busy_op", "proc_inner", "output_done", "outages", "outage_nonneg", "agv_phase", "idle_unclaimed", "sto_ok", "fresh"]
+           "past", "busy_op", "proc_inner", "output_done", "outages", "outage_nonneg", "agv_phase", "idle_unclaimed", "sto_ok", "fresh", "agv_load", "fresh2"]
 
 
 def monitor_states(records, driver, which=None, stats=None):
@@ -212,7 +212,7 @@ def monitor_states(records, driver, which=None, stats=None):
 
 
 EVENTS = ["pre_release", "setup", "tool_frame", "due", "work", "machine_outage", "machine_release", "dispatch",
-          "transit", "deliver", "transport_release", "stores", "clock", "transit_release", "transit_side"]
+          "transit", "deliver", "transport_release", "stores", "clock", "transit_release", "transit_side", "transit_claim"]
 
 
 def monitor_events(records, driver, which=None, stats=None):
